@@ -199,7 +199,7 @@ class C01(Prop):
     assumptions = []
 
     def cases(self, rng, tier):
-        n = 150 if tier == 'quick' else 5000
+        n = 400 if tier == 'quick' else 5000
         return [{'seed': rng.getrandbits(40), 'tcp': rng.random() < 0.5, 'frag': rng.choice([None, 64, 64, 100]), 'n': rng.randint(3, 12)} for _ in range(n)]
 
     def run_impl(self, case):
